@@ -52,7 +52,7 @@ const (
 
 func newC05World(t *testing.T, transactional, ha bool) *c05World {
 	hub := newRecHub()
-	tc := mustBoot(t, coreOpts{transactional: transactional, ha: ha,
+	tc := mustBoot(t, coreOpts{transactional: transactional, ha: ha, retryBase: 40 * time.Millisecond,
 		logical: map[string]logical.Factory{"recbe": hub.factory("recbe", logical.TypeLogical)}})
 	tc.mount("rb", "recbe", map[string]any{"default_lease_ttl": "30m", "max_lease_ttl": "2h"})
 	tc.mount("rc", "recbe", nil)
@@ -366,6 +366,88 @@ func TestVerif_C05_Leases(t *testing.T) {
 				}
 				l.expired = true
 				w.logf("expire %s", verifx.Trunc(l.id, 30))
+			},
+			// a lease runs out while the secrets engine has a passing problem: the first revocation attempt fails with
+			// an ordinary error, or one that wraps a cancellation or a deadline of the engine's own upstream; the lease
+			// must be revoked by a retry, or be marked irrevocable, or at least have the failure on its record
+			"lapse-while-engine-fails-once": func(rt *rapid.T) {
+				w.hub.mu.Lock()
+				refusing := w.hub.failRevoke
+				w.hub.mu.Unlock()
+				if refusing {
+					rt.Skip("the engine refuses every revocation at the moment")
+				}
+				l := pick(rt, func(l *c05Lease) bool { return !l.dead && !l.isToken && !l.expired })
+				if l == nil {
+					rt.Skip("no lease")
+				}
+				kind := []string{"plain", "wraps-canceled", "wraps-deadline"}[fairIndex(rt, "engineError", 3)]
+				ferr := fmt.Errorf("recbe: upstream unavailable")
+				switch kind {
+				case "wraps-canceled":
+					ferr = fmt.Errorf("recbe: upstream connection torn down: %w", context.Canceled)
+				case "wraps-deadline":
+					ferr = fmt.Errorf("recbe: upstream timed out: %w", context.DeadlineExceeded)
+				}
+				ctx := namespace.RootContext(context.Background())
+				m := w.tc.c.expiration
+				le, err := m.loadEntry(ctx, l.id)
+				if err != nil || le == nil {
+					rt.Skip("lease not loadable")
+				}
+				w.hub.mu.Lock()
+				w.hub.failRevokeN, w.hub.failRevokeErr = 1, ferr
+				base := w.hub.revokeFailed
+				w.hub.mu.Unlock()
+				le.ExpireTime = time.Now().Add(20 * time.Millisecond)
+				if err := m.persistEntry(ctx, le); err != nil {
+					t.Fatalf("harness: persist: %v", err)
+				}
+				m.updatePending(le)
+				l.expired = true
+				seen := false
+				for dl := time.Now().Add(4 * time.Second); time.Now().Before(dl); time.Sleep(5 * time.Millisecond) {
+					w.hub.mu.Lock()
+					seen = w.hub.revokeFailed > base
+					w.hub.mu.Unlock()
+					if seen {
+						break
+					}
+				}
+				gone := false
+				for dl := time.Now().Add(4 * time.Second); seen && time.Now().Before(dl); time.Sleep(10 * time.Millisecond) {
+					if e, err := m.loadEntry(ctx, l.id); err == nil && e == nil {
+						gone = true
+						break
+					}
+				}
+				w.hub.mu.Lock()
+				w.hub.failRevokeN = 0
+				w.hub.mu.Unlock()
+				w.logf("lease %s runs out, first revocation fails (%s): attempt seen=%v, revoked by a retry=%v", verifx.Trunc(l.id, 30), kind, seen, gone)
+				if gone {
+					l.dead = true
+					nontrivial = true
+					return
+				}
+				if !seen {
+					return // the timer did not fire within the wait (loaded machine): nothing to judge
+				}
+				_, irrevocable := m.irrevocable.Load(l.id)
+				attempts := -1
+				m.pendingLock.RLock()
+				if raw, ok := m.pending.Load(l.id); ok {
+					attempts = int(raw.(pendingInfo).revokesAttempted)
+				}
+				m.pendingLock.RUnlock()
+				switch {
+				case irrevocable:
+					rec.Class("lapse: marked irrevocable after the failed attempt", 1)
+				case attempts >= 1:
+					rec.Class("lapse: retry on record, not yet run (inconclusive)", 1)
+				default:
+					fail("expired-lease-abandoned-after-failed-revocation:"+kind, fmt.Sprintf("lease %s ran out, its revocation failed at the secrets engine (%v); seconds later it is still stored, not marked irrevocable, and the failure is not on its record (attempts on record: %d): nothing will try again before the next restart", verifx.Trunc(l.id, 40), ferr, attempts))
+				}
 			},
 			"revoke": func(rt *rapid.T) {
 				l := pick(rt, func(l *c05Lease) bool { return !l.dead })
